@@ -237,6 +237,31 @@ Definition t_run := run T.crypto_encrypt T.crypto_decrypt T.encrypt T.decrypt T.
 Definition wc_run := run W.cc_encrypt W.cc_decrypt W.ce_encrypt W.cd_decrypt W.cc_split None.
 Definition ws_run := run W.sc_encrypt W.sc_decrypt W.se_encrypt W.sd_decrypt W.sc_split None.
 
+(* A fifth machine: the Wrath client object with its receiving direction driven at HEADER level.  A
+   Dec operation of 4 bytes is attempt_decrypt_server_header, one of 1 byte is
+   decrypt_large_server_header (which reads the four bytes stashed by the attempt), any other length
+   is the raw decrypt; a completed header is reported as size and opcode, 4 little-endian bytes
+   each, a pending one as nothing.  The stash is part of the state that split and clone must carry. *)
+Definition hdr_bytes (h : N * N) : list N := N_to_le 4 (fst h) ++ N_to_le 4 (snd h).
+Definition cd_receive (h : W.client_dec) (bs : list N) : nres (W.client_dec * list N) :=
+  match bs with
+  | [_; _; _; _] =>
+    match W.attempt_decrypt_server_header h bs with
+    | Ok (h', W.Header s o) => Ok (h', hdr_bytes (s, o))
+    | Ok (h', W.AdditionalByteRequired) => Ok (h', [])
+    | Err e => Err e | Panic => Panic
+    end
+  | [b] =>
+    match W.decrypt_large_server_header h b with
+    | Ok (h', so) => Ok (h', hdr_bytes so)
+    | Err e => Err e | Panic => Panic
+    end
+  | _ => W.cd_decrypt h bs
+  end.
+Definition cc_receive (c : W.client_crypto) (bs : list N) : nres (W.client_crypto * list N) :=
+  W.lift_enc W.cc_dec W.cc_set_dec (fun h => cd_receive h bs) c.
+Definition wch_run := run W.cc_encrypt cc_receive W.ce_encrypt cd_receive W.cc_split None.
+
 Definition v_obj := @obj V.crypto V.half V.half.
 Definition t_obj := @obj T.crypto T.half T.half.
 Definition wc_obj := @obj W.client_crypto W.client_enc W.client_dec.
